@@ -70,7 +70,7 @@ def _verify_one(args):
         mod = importlib.import_module(build_mod)
         src = Source(repo)
         prop = mod.build(RunCtx(repo, tier, seed, src, ""))
-        contract = next(c for c in prop.verify if c.key == key)
+        contract = next((c for c in prop.verify if c.key == key), None) or prop.registry.contracts[key]      # a part may name any contract of the other module's registry
         rep = verify_function(src, prop.registry, contract, pid, step_hooks=prop.step_hooks.get(key))
         return _pack(rep)
     except Exception as e:
